@@ -150,6 +150,20 @@ def c07_witnesses(tier='quick'):
         other = [v for v in ['LessViolated', 'GreaterViolated', 'NotEmptyViolated', 'FiniteViolated', 'RegexViolated', 'LessOrEqualViolated']
                  if v not in variants][0]
         add(f'c07-{fam}-undeclared-kind', prog(variants + [other]), {'fail': ['E0599']}, None, f'variant {other} of an undeclared validator does not exist')
+    # one variant per declared validator presupposes one validator per kind: a repeated kind is refused in every family
+    # (two rules could not be told apart by the single variant of that kind)
+    dup = {
+        'int': ('i32', ['greater = 1, greater = 2', 'predicate = |x| *x != 4, predicate = |x| *x != 5', 'less = 9, greater = 1, less = 8']),
+        'float': ('f64', ['finite, finite', 'less = 1.0, less = 2.0', 'predicate = |x| *x != 4.0, predicate = |x| *x != 5.0']),
+        'string': ('String', ['not_empty, not_empty', 'len_char_max = 5, len_char_max = 6', 'predicate = |s| s.len() != 4, predicate = |s| s.len() != 5']),
+        'any': ('Vec<i32>', ['predicate = |v| !v.is_empty(), predicate = |v| v.len() < 9', 'predicate = |v| !v.is_empty(), predicate = |v| !v.is_empty()']),
+        'any-generic': ('Vec<T>', ['predicate = |v| !v.is_empty(), predicate = |v| v.len() < 9']),
+    }
+    for fam, (inner, attrs) in dup.items():
+        g = '<T>' if 'T' in inner.replace('Vec', '') else ''
+        for i, a in enumerate(attrs):
+            add(f'c07-{fam}-repeated-kind-{i}', HEAD + f'use nutype::nutype;\n#[nutype(validate({a}))]\npub struct T{g}({inner});\n', {'fail': None, 'msg': None}, None,
+                f'{fam}: `validate({a})` repeats a validator kind: refused')
     return ws
 
 
